@@ -5,6 +5,10 @@ mod node;
 mod prefix;
 mod trace;
 mod tree;
+#[cfg(redirectionio_verif)]
+mod verif;
 
 pub use trace::Trace;
 pub use tree::{RegexTreeMap, UniqueRegexTreeMap};
+#[cfg(redirectionio_verif)]
+pub use verif::verif_common_prefix_char_size;
